@@ -28,12 +28,12 @@ class WorldC17(World):
     PROP = 'C17'
     RUNS = {'quick': 24000, 'thorough': 400000}
     WALL = {'quick': 45, 'thorough': 540}
-    STATE_CHANGING = ('new', 'insert', 'pop', 'reload')
+    STATE_CHANGING = ('new', 'insert', 'pop', 'reload', 'checkpoint', 'restore')
     STATE_RULE = 'per effect: (number of breakpoints, number of tied breakpoints, shares lists)'
     PROBES = ('insert-above-last', 'insert-equal-existing', 'insert-equal-last', 'insert-between',
               'pop-last', 'pop-middle', 'pop0-refused', 'shared-lists-edit',
               'eval-on-breakpoint', 'eval-beyond-last', 'reload-after-edit', 'single-breakpoint-effect',
-              'reload-via-hook', 'two-edits-between-evaluations')
+              'reload-via-hook', 'two-edits-between-evaluations', 'restore-after-edits', 'integer-slopes')
     REAL = ('pmutt.mixture.cov.PiecewiseCovEffect (all methods)', 'pmutt.io.json encoder/object hook',
             'json module')
     SIMULATED = ('1-3 clients issuing calls over a shared pool of effects (seeded scheduler)',
@@ -57,6 +57,8 @@ class WorldC17(World):
             # how often the energies of all effects are evaluated between edits (the structural invariants, which read
             # the lists only, still run after every step): an evaluation is itself an event of the history
             'eval_every': rng.choice([1, 1, 2, 3, 5]),
+            'int_slopes': rng.random() < 0.25,     # slopes typed as whole numbers (Python ints)
+            'w_ckpt': rng.choice([0, 0, 1, 2]),    # dictionaries kept by the caller and restored later
         }
 
     def n_steps(self, rng, swarm):
@@ -74,6 +76,7 @@ class WorldC17(World):
         self.group = {}    # id -> sharing group id
         self.edited = set()
         self.next_id = 0
+        self.ckpt = {}     # id -> (dictionary the caller kept, reference pairs then, probe points, values then, step)
 
     def _val(self, rng, lo, hi):
         g = self.ctx.swarm['grid']
@@ -83,6 +86,8 @@ class WorldC17(World):
 
     def _slope(self, rng):
         sc = self.ctx.swarm['slope_scale']
+        if self.ctx.swarm.get('int_slopes'):
+            return rng.randint(-int(3 * sc), int(3 * sc))
         return rng.choice([0.0, round(rng.uniform(-sc, sc), 4), float(rng.randint(-5, 5))])
 
     def gen_op(self, rng):
@@ -106,8 +111,12 @@ class WorldC17(World):
         pairs = list(zip(self.eff[k].intervals, self.eff[k].slopes))
         n = len(pairs)
         kinds = (['insert'] * sw['w_insert'] + ['pop'] * sw['w_pop'] + ['eval'] * sw['w_eval'] +
-                 ['reload'] * sw['w_reload'])
+                 ['reload'] * sw['w_reload'] + ['ckpt'] * sw.get('w_ckpt', 0))
         kind = rng.choice(kinds)
+        if kind == 'ckpt':
+            if k in self.ckpt and rng.random() < 0.6:
+                return {'c': c, 'op': 'restore', 'args': {'id': k}}
+            return {'c': c, 'op': 'checkpoint', 'args': {'id': k}}
         if kind == 'insert' and n >= 12:
             kind = 'pop'
         if kind == 'pop' and n <= 1 and rng.random() < 0.7:
@@ -192,7 +201,9 @@ class WorldC17(World):
         elif name == 'insert':
             obj = self._get(a['id'])
             before = list(zip(obj.intervals, obj.slopes))
-            x, s = float(a['x']), float(a['s'])
+            x, s = float(a['x']), a['s']          # the slope keeps the type the caller typed (int or float)
+            if isinstance(s, int) and not isinstance(s, bool) and all(isinstance(q, int) for q in obj.slopes):
+                ctx.probe('integer-slopes')
             bps = [p[0] for p in before]
             if x > bps[-1]:
                 ctx.probe('insert-above-last')
@@ -213,6 +224,8 @@ class WorldC17(World):
             else:
                 self.ref[a['id']] = _ms(self.ref[a['id']] + [(x, s)])
                 self.edited.add(a['id'])
+                if a['id'] in getattr(self, '_ckpt_edits', {}):
+                    self._ckpt_edits[a['id']] += 1
                 self._follow_sharers(a['id'])
                 out = len(obj.intervals)
         elif name == 'pop':
@@ -270,6 +283,37 @@ class WorldC17(World):
             if a['id'] in self.edited:
                 ctx.probe('reload-after-edit')
             self.eff[a['id']] = new
+            self.lists[a['id']] = (new.intervals, new.slopes)
+            self.group[a['id']] = ('r', a['id'], ctx.step)
+            out = len(got)
+        elif name == 'checkpoint':
+            obj = self._get(a['id'])
+            d = self.real(obj.to_dict, _what='to_dict')        # kept as it is, not passed through JSON text
+            probes = self._probe_points(obj, [0.33, 1.2])
+            self.ckpt[a['id']] = (d, list(self.ref[a['id']]), probes, [obj.get_UoRT(x=x, T=400.0) for x in probes],
+                                  len(self.edited), ctx.step)
+            self._ckpt_edits = getattr(self, '_ckpt_edits', {})
+            self._ckpt_edits[a['id']] = 0
+            out = 'kept'
+        elif name == 'restore':
+            if a['id'] not in self.ckpt:
+                raise Skip()
+            self._get(a['id'])
+            d, ref0, probes, vals, _, step0 = self.ckpt.pop(a['id'])
+            if getattr(self, '_ckpt_edits', {}).get(a['id'], 0) > 0:
+                ctx.probe('restore-after-edits')
+            new = self.real(self.cov.PiecewiseCovEffect.from_dict, d, _what='from_dict(dictionary kept since step %d)' % step0)
+            got = _ms(zip(new.intervals, new.slopes))
+            if got != _ms(ref0):
+                raise Violation('reload-unchanged', 'the dictionary serialised at step %d held %r; restored after later edits '
+                                'of the object it came from it gives %r' % (step0, list(ref0), got))
+            vals2 = [new.get_UoRT(x=x, T=400.0) for x in probes]
+            for x, v1, v2 in zip(probes, vals, vals2):
+                if not _close(v1, v2, 1e-12, 1e-12):
+                    raise Violation('reload-unchanged', 'restored from the dictionary kept since step %d: U(x=%r) %r became %r' % (
+                        step0, x, v1, v2))
+            self.eff[a['id']] = new
+            self.ref[a['id']] = _ms(ref0)
             self.lists[a['id']] = (new.intervals, new.slopes)
             self.group[a['id']] = ('r', a['id'], ctx.step)
             out = len(got)
